@@ -366,7 +366,33 @@ def shuffle_games(rng, n, cycles_max):
     return out
 
 
-@prop("C04", "C04.v", THEOREMS["C04"])
+def position_again_after_go(o):
+    """the go in between plays the engine's move on its board; the identical position line must set X up again"""
+    import blackbox
+    ok = True
+    for cmd in ("position fen 7k/8/5K2/8/8/8/8/6R1 b - - 0 1", "position startpos moves e2e4 e7e5",
+                "position fen r3k2r/p1ppqpb1/bn2pnp1/3PN3/1p2P3/2N2Q1p/PPPBBPPP/R3K2R w KQkq - 0 1 moves e1g1"):
+        eng = blackbox.Engine(V.BINARY)
+        try:
+            eng.handshake()
+            eng.send(cmd)
+            eng.send("go")
+            a = eng.read_until(lambda l: l.startswith("bestmove"), 10)
+            eng.send(cmd)
+            eng.send("go")
+            b = eng.read_until(lambda l: l.startswith("bestmove"), 10)
+            o.evaluations += 2
+            if a[-1] is None or a[-1] != b[-1]:
+                ok = False
+                o.violation("input", "`%s`, go, the same line again, go: answers %r then %r (the position was not set up again)" % (cmd, a[-1], b[-1]),
+                            {"case": "%s | go | %s | go" % (cmd, cmd), "first": a[-1], "second": b[-1]})
+        finally:
+            eng.close()
+    hist_add(o, "position line repeated after a go")
+    return ok
+
+
+@prop("C04", "C04.v", THEOREMS["C04"], binary=True)
 def run_c04(o, tier, rng, prep):
     games = game_pool(rng, 40 if tier == "quick" else 1500, 60)
     tags_hist(o, games)
@@ -398,6 +424,8 @@ def run_c04(o, tier, rng, prep):
     mm2, sm2 = V.compare(res2)
     report(o, "every generated move, printed and replayed through make_move, reproduces its own successor", res2, mm2, sm2,
            nontrivial=lambda r: True)
+    okp = position_again_after_go(o)
+    o.oblige("`position X`, `go`, `position X` again: the board is X again (the second answer equals the first)", okp)
     o.rule = "position commands for prefixes of specification-generated legal games from 40 starts (castling, en passant, promotions, corner rook moves/captures counted in input_distribution); plus generator-versus-text replay of every successor; non-trivial = at least one move replayed"
 
 
@@ -526,6 +554,9 @@ def run_search_repetition(o, tier, rng):
     for reps in (2, 3, 4):
         mv = ["h1g1", "a8b8", "g1h1", "b8a8"] * reps
         sessions.append(("q7/8/2k5/8/8/8/8/7K w - - 0 1", mv))
+    # perpetual check: the move that completes the repetition gives check, and the checked side could leave the cycle
+    sessions.append(("8/5ppk/7p/8/Q7/8/1rr5/7K w - - 0 1", ["a4e4", "h7g8", "e4e8", "g8h7", "e8e4", "h7g8", "e4e8", "g8h7"]))
+    sessions.append(("7k/1RR5/8/q7/8/7P/5PPK/8 b - - 0 1", ["a5e5", "h2g1", "e5e1", "g1h2", "e1e5", "h2g1", "e5e1", "g1h2"]))
     cases = ["search\t%s\t%d" % (pos_cmd(s, m), 3000 if tier == "quick" else 20000) for s, m in sessions]
     res = V.run_cases(cases)
     mm, _ = V.compare(res, use_spec=False)
@@ -750,11 +781,21 @@ def mate_score_const():
 
 # forced mates of both colours: once the mate is proven the remaining iterations must still go on to greater depths
 # (or stop) - never report the same depth again
-MATE_FENS = [
+SWEEP_MATE_FENS = [
     "6k1/8/6K1/8/8/8/8/R7 w - - 0 1",            # Ra8#
     "r7/8/8/8/8/6k1/8/6K1 b - - 0 1",            # ...Ra1#
     "7k/8/5K2/8/8/8/8/6RR w - - 0 1",            # mate in two
     "6rr/8/8/8/8/5k2/8/7K b - - 0 1",
+]
+# positions whose search touches the rarely taken paths of the node: a repetition return (history with a twice-seen
+# position inside the horizon), a stalemate node one ply down, black castling long as the best root move
+SWEEP_EXTRA = [
+    ("q7/8/2k5/8/8/8/8/7K w - - 0 1", ["h1g1", "a8b8", "g1h1", "b8a8", "h1g1", "a8b8", "g1h1", "b8a8"]),
+    ("7k/8/8/8/8/8/8/1Q4K1 w - - 0 1", ["b1c1", "h8g8", "c1b1", "g8h8", "b1c1", "h8g8", "c1b1"]),
+    ("7k/5Q2/8/8/8/8/8/K7 w - - 0 1", []),
+    ("k7/8/8/8/8/8/2q5/7K b - - 0 1", []),
+    ("r3k2K/7P/8/5n2/8/8/6B1/8 b q - 0 1", []),
+    ("k2R4/8/8/8/8/8/8/4K2R w K - 0 1", []),
 ]
 FORCED_MOVE_FENS = [
     "7k/8/8/8/8/8/6q1/K7 w - - 0 1",
@@ -768,8 +809,12 @@ def sweep_expiry(o, tier, rng, want_c18=False, hunt=False):
     """C07/C18: for small searches enumerate every expiry index k from 0 up to the end of a reference run"""
     # roots with exactly one legal move come first: there the root loop meets the clock at other places
     # (an expiry inside the only move's subtree is noticed one iteration later)
-    pos = [(f, [], f) for f in FORCED_MOVE_FENS + MATE_FENS] + small_positions(rng, 30 if tier == "quick" else 400, max_pieces=7)
-    npos = 10 + len(FORCED_MOVE_FENS) + len(MATE_FENS) if tier == "quick" else 120
+    extra = []
+    for st_, mv_ in SWEEP_EXTRA:
+        fen_ = proj_to_fen(legal_after([pos_cmd(st_, mv_)])[0]) if mv_ else st_
+        extra.append((st_, mv_, fen_))
+    pos = [(f, [], f) for f in FORCED_MOVE_FENS + SWEEP_MATE_FENS] + extra + small_positions(rng, 30 if tier == "quick" else 400, max_pieces=7)
+    npos = 10 + len(FORCED_MOVE_FENS) + len(SWEEP_MATE_FENS) + len(extra) if tier == "quick" else 120
     kmax = 100 if tier == "quick" else 260
     if hunt:
         # the correspondence broke: search harder for a concrete failing expiry point, on the implementation alone
@@ -943,6 +988,10 @@ def run_c18(o, tier, rng, prep):
     o.oblige("info lines on the real binary's stdout (%d timed searches)" % len(bb), ok)
 
 
+CYCLE_TO_ROOT_FENS = [
+    "6k1/6p1/8/7Q/8/8/rr3PPP/bn4K1 w - - 0 1",       # Qe8+ Kh7 Qh5+ Kg8 returns to the root: a second occurrence only
+    "BN4k1/RR3ppp/8/8/7q/8/6P1/6K1 b - - 0 1",
+]
 UNDERPROMOTION_FENS = [
     "8/5P1k/5K2/8/8/8/8/8 w - - 0 1",            # f8=Q is stalemate, f8=R wins
     "8/8/8/8/8/5k2/5p1K/8 b - - 0 1",            # mirror of it for black
@@ -1032,7 +1081,7 @@ def run_c12(o, tier, rng, prep):
     for start, moves, fen in pos:
         cases.append("search\t%s\t%d" % (pos_cmd(start, moves), budget))    # with its game history
         cases.append("search\tposition fen %s\t%d" % (fen, budget))          # without history
-    for f, n, _ in gens.filter_legal(UNDERPROMOTION_FENS):
+    for f, n, _ in gens.filter_legal(UNDERPROMOTION_FENS + CYCLE_TO_ROOT_FENS):
         if n > 0:
             cases.append("search\tposition fen %s\t%d" % (f, budget))
     # histories with repetitions: a drawing repetition move at the horizon
@@ -1110,6 +1159,8 @@ def blackbox_searches(o, tier, rng, slices, n):
 
 # ---------------------------------------------------------------- C11
 MATE_FENS = [
+    "6br/5Ppk/7p/8/8/8/8/K7 w - - 0 1",               # the only mate is f8=N#
+    "k7/8/8/8/8/7P/5pPK/6BR b - - 0 1",               # ...f1=N#
     "6k1/5ppp/8/8/8/8/8/R5K1 w - - 0 1",            # back-rank mate in one
     "7k/5Q2/6K1/8/8/8/8/8 w - - 0 1",                # several mates in one, and stalemating moves
     "7k/8/5K2/6Q1/8/8/8/8 w - - 0 1",                # stalemate trap Qg6?? vs mates
@@ -1283,8 +1334,39 @@ def gui_mate_sessions(o, tier, rng):
     games = [("4r1k1/ppp2ppp/8/8/8/8/5PPP/R5K1 w - - 0 1", ["a1a5", "g8h8", "a5a1", "h8g8"]),
              ("6k1/5ppp/8/8/8/8/r4PPP/5RK1 w - - 0 1", ["f1e1", "a2a5", "e1f1", "a5a2"]),
              ("r5k1/5ppp/8/8/8/8/5PPP/R5K1 w - - 0 1", ["a1a8"]),
-             ("6k1/5ppp/8/8/8/8/8/R5K1 w - - 0 1", [])]
+             ("6k1/5ppp/8/8/8/8/8/R5K1 w - - 0 1", []),
+             # the only mate is a knight promotion: the letter printed must be the knight's
+             ("6br/5Ppk/7p/8/8/8/8/K7 w - - 0 1", []),
+             ("k7/8/8/8/8/7P/5pPK/6BR b - - 0 1", [])]
     ok = True
+    # tiny slices: the first iteration finishes (it prints `mate 1`), many improvements are handed over within a
+    # millisecond, and the answer must be the newest of them (F13: the polling loop used to be able to leave with an
+    # older one) - judged only when `score mate 1` was printed
+    eng = blackbox.Engine(V.BINARY)
+    try:
+        eng.handshake()
+        stale = None
+        nconc = 0
+        for _ in range(60 if tier == "quick" else 600):
+            eng.send("position fen 6k1/5ppp/8/8/8/8/5PPP/R5K1 w - - 0 1")
+            eng.send("go wtime 350 btime 350")
+            ls = eng.read_until(lambda l: l.startswith("bestmove"), 10)
+            o.evaluations += 1
+            if ls[-1] is None:
+                stale = ls
+                break
+            if any(l and l.startswith("info") and "score mate 1" in l for l in ls):
+                nconc += 1
+                if ls[-1].split(" ")[1] != "a1a8":
+                    stale = ls
+                    break
+        if stale is not None:
+            ok = False
+            o.violation("input", "`score mate 1` was printed but the answer is %r: position fen 6k1/5ppp/8/8/8/8/5PPP/R5K1 w - - 0 1 | go wtime 350 btime 350" % (stale[-1],),
+                        {"case": "position fen 6k1/5ppp/8/8/8/8/5PPP/R5K1 w - - 0 1 | go wtime 350 btime 350", "lines": [x for x in stale if x][-4:]})
+        hist_add(o, "tiny-slice mate-in-one searches with the mate announced", nconc)
+    finally:
+        eng.close()
     for start, moves in games:
         eng = blackbox.Engine(V.BINARY)
         try:
@@ -1750,6 +1832,13 @@ HEAVY_FENS = [
 ]
 
 
+STALEMATE_IN_TREE_FENS = [
+    "7k/5Q2/8/8/8/8/8/K7 w - - 0 1",        # any quiet king move stalemates Black
+    "5k2/5P2/4K3/8/8/8/8/8 w - - 0 1",      # Kf6 stalemates, Kd7/Ke5.. do not
+    "k7/2K5/8/1Q6/8/8/8/8 w - - 0 1",       # Qb6 stalemates, Qb7 mates
+]
+
+
 def session_model_corr(o, tier, rng):
     """the session model's go step against the real search: the answer is one of the sends (in-process, virtual clock);
     the polling loop of a go ends iff something was sent, so every non-terminal root must yield a send for every expiry index"""
@@ -1760,6 +1849,10 @@ def session_model_corr(o, tier, rng):
             cases.append("search\t%s\t%d" % (pos_cmd(start, moves), k))
     for fen in HEAVY_FENS[1:]:          # (the sixteen-queen position is replayed on the binary only: its quiescence is too large for the model)
         for k in range(0, 6):
+            cases.append("search\tposition fen %s\t%d" % (fen, k))
+    # stalemates and mates inside the horizon (the harness is built with overflow checks: a count that goes below 0 panics here)
+    for fen in STALEMATE_IN_TREE_FENS:
+        for k in (40, 400, 2500):
             cases.append("search\tposition fen %s\t%d" % (fen, k))
     res = V.run_cases(cases)
     mm, _ = V.compare(res, use_spec=False)
@@ -2026,7 +2119,11 @@ def run_c16(o, tier, rng, prep):
                                                                      "go wtime 140 btime 140", "go wtime 175 btime 175",
                                                                      "go wtime 102 btime 102 movestogo 1", "go wtime 103 btime 103 movestogo 1"]))
                     else:
-                        used.send(pos_cmd(t[0], t[1]))
+                        # a finished game: the go is answered with the null move and must leave nothing behind
+                        reply(used, pos_cmd(t[0], t[1]), "go wtime 130 btime 130 movestogo 1")
+            if i % 3 == 0:
+                reply(used, "position fen 7k/5Q2/6K1/8/8/8/8/8 b - - 0 1", "go")        # stalemate
+                reply(used, "position startpos moves f2f3 e7e5 g2g4 d8h4", "go")         # checkmate
             # a search that completes every iteration (a forced mate is proven at once and the remaining depths
             # cost nothing): whatever a *finished* search keeps must not reach the next request either
             if i % 2 == 0:
@@ -2209,6 +2306,41 @@ def run_c17(o, tier, rng, prep):
             o.distinct += 1
         finally:
             eng.close()
+    eng = blackbox.Engine(V.BINARY)
+    try:
+        eng.handshake()
+        hung = False
+        for j in range(40 if tier == "quick" else 400):
+            eng.send("position fen r1bq1rk1/pp2bppp/2n1pn2/2pp4/2PP4/2N1PN2/PP2BPPP/R1BQ1RK1 w - - 0 1")
+            eng.send("go wtime %d btime %d" % ((175, 175) if j % 2 else (140, 140)))
+            ls = eng.read_until(lambda l: l.startswith("bestmove"), 5)
+            o.evaluations += 1
+            if ls[-1] is None or not eng.isready(3):
+                hung = True
+                break
+        if not hung:
+            eng.send("quit")
+            hung = eng.wait_exit(3) is None
+        if hung:
+            ok = False
+            o.violation("input", "after go commands with a 1-2 ms allowance the engine stops answering (bestmove/readyok/quit): position fen r1bq1rk1/pp2bppp/2n1pn2/2pp4/2PP4/2N1PN2/PP2BPPP/R1BQ1RK1 w - - 0 1 | go wtime 175 btime 175",
+                        {"case": "go wtime 175 btime 175 repeated", "stderr": eng.stderr_text()[-300:]})
+        hist_add(o, "lifecycle after 1-2 ms searches")
+    finally:
+        eng.close()
+    # the same, deterministically: on the real search function with the virtual clock, every early deadline must hand a move
+    # back - the loop that waits for it is the one that notices quit and end of input
+    lres = V.run_cases(["search\t%s\t%d" % (c, k) for c in ("position startpos", "position fen r1bq1rk1/pp2bppp/2n1pn2/2pp4/2PP4/2N1PN2/PP2BPPP/R1BQ1RK1 w - - 0 1",
+                                                               "position startpos moves e2e4") for k in range(0, 8)])
+    okl = True
+    for r in lres:
+        d = parse_search(r.get("I"))
+        o.evaluations += 1
+        if d.get("bad") or d.get("panic") or not d.get("sends"):
+            okl = False
+            o.violation("input", "a search with an early deadline hands nothing back; the session then waits for ever and notices neither quit nor end of input: %s -> %s" % (r["case"], (r.get("I") or "")[:120]),
+                        {"case": r["case"], "impl": r.get("I")})
+    o.oblige("every early deadline (clock readings 0..7) ends with a move handed back, so the command loop is reached again", okl)
     # the one option the engine has switches a log file on: from then on ignored lines are also logged, and must
     # still be ignored - every garbage line once, each followed by isready
     eng = blackbox.Engine(V.BINARY)
